@@ -58,6 +58,20 @@ let () =
   reg "crc64" (fun a -> match a with [init; d] -> n_to_hex (crc64 (bytes_of_hex d) (n_of_hex init)) | _ -> "ERR");
   reg "sha256" (fun a -> match a with [d] -> hex_of_bytes (sha256 (bytes_of_hex d)) | _ -> "ERR")
 
+let () =
+  let b = function "1" -> true | _ -> false in
+  reg "bcj" (fun a -> match a with [arch; enc; np; pm; pp; d] ->
+      let (((o, n), pm'), pp') = bcj_code (n_of_int (int_of_string arch)) (b enc) (n_of_int (int_of_string np))
+          (n_of_int (int_of_string pm)) (n_of_int (int_of_string pp)) (bytes_of_hex d) in
+      Printf.sprintf "%d %s %d %d" (int_of_n n) (hex_of_bytes o) (int_of_n pm') (int_of_n pp')
+    | _ -> "ERR");
+  reg "bcjwhole" (fun a -> match a with [arch; enc; st; d] ->
+      hex_of_bytes (bcj_whole (n_of_int (int_of_string arch)) (b enc) (n_of_int (int_of_string st)) (bytes_of_hex d))
+    | _ -> "ERR");
+  reg "delta" (fun a -> match a with [enc; dist; d] ->
+      hex_of_bytes ((if b enc then delta_encode else delta_decode) (n_of_int (int_of_string dist)) (bytes_of_hex d))
+    | _ -> "ERR")
+
 (* ---- main loop (keep last) ---- *)
 let () =
   try
